@@ -444,7 +444,9 @@ def pidOne (name : String) : S → S :=
       | _ => badScript s)
     (fun code text s =>
       let s := setExit (K do_pid_a4) s
-      if onCode do_pid_g3 code then out ("No such process " ++ name) s else raiseFault code text s)
+      if onCode do_pid_g3 code then out ("No such process " ++ name) s
+      else if onCode do_pid_g5 code then out (name ++ ": ERROR (supervisor shutting down)") s
+      else raiseFault code text s)
     raiseSock
 
 def doPid (arg : String) : S → S :=
@@ -479,7 +481,8 @@ def removeOne (name : String) : S → S :=
     (expectUnit (out (name ++ ": removed process group")))
     (fun code text s =>
       let s := setExit (K do_remove_a3) s
-      if onCode do_remove_g1 code then s |> out ("ERROR: process/group still running: " ++ name)
+      if onCode do_remove_g3 code then s |> out "ERROR: shutting down"
+      else if onCode do_remove_g1 code then s |> out ("ERROR: process/group still running: " ++ name)
       else if onCode do_remove_g2 code then s |> out ("ERROR: no such process/group: " ++ name)
       else s |> raiseFault code text)
     raiseSock
